@@ -632,6 +632,29 @@ def c01n_jobs(tier, seed):
     return jobs
 
 
+def c01q_run(tid, wcfg, cfgline, state, nitems, with_notif):
+    """C01: the application has queued requests (BaseHandler.inter_mq) BEFORE the session is Established; the peer's
+    KEEPALIVE in OpenSent / the first KEEPALIVE in OpenConfirm is answered as the table says, nothing else is written."""
+    w = World(wcfg)
+    rec = R.Recorder(w, tid, cfgline)
+    c = first_session(w, rec)
+    if c is None:
+        return rec.lines
+    if state == 'OPENCONFIRM':
+        rec.step({'k': 'msg', 'c': c, 'm': 'OPEN', 'h': 90}, c)
+    items = [{'type': 'update', 'msg': {'attr': {1: 0, 2: [(2, [65001])], 3: '10.0.0.1'}, 'nlri': ['10.77.%d.0/24' % i]}} for i in range(nitems)]
+    if with_notif:
+        items.append({'type': 'notification', 'msg': {'error': 6, 'sub_error': 2, 'data': b''}})
+    rec.step({'k': 'enqueue', 'c': 0, 'items': items, 'cls': 'ENQUEUE', 'm': 'q%d' % len(items)}, 0)
+    rec.step({'k': 'msg', 'c': c, 'm': 'KA'}, c)
+    return rec.lines
+
+
+def c01q_jobs(tier, seed):
+    wcfg = dict(tick=10.0, crt=20, idle=20, hold=90, las=65001, ras=65002)
+    return [('c01q', wcfg, state, n, wn) for state in ('OPENSENT', 'OPENCONFIRM') for n in (1, 3) for wn in (False, True)]
+
+
 def c18q_run(tid, wcfg, cfgline, seed):
     """the application handler queues UPDATE / NOTIFICATION requests (BaseHandler.inter_mq); the agent sends them when a
     KEEPALIVE arrives.  Every frame written must show up in the sent counters (C18), on the tracked connection."""
@@ -698,7 +721,7 @@ def url_rules():
 
 def bodies_for(rule):
     """[(name, json body or None, rq description)]"""
-    u = {'cls': RULE_CLASS.get(rule, 'unknown'), 'valid': False, 'etype': '', 'wdn': 0, 'nln': 0, 'ats': [], 'ibgp': False, 'lp': -1, 'aspl': -1}
+    u = {'cls': RULE_CLASS.get(rule, 'unknown'), 'valid': False, 'etype': '', 'wdn': 0, 'nln': 0, 'ats': [], 'ibgp': False, 'lp': -1, 'aspl': -1, 'rr': [-1, -1, -1]}
     if rule == 'send/update':
         base = {'1': 0, '2': [[2, [65001]]], '3': '10.0.0.1'}
         return [('announce', {'attr': dict(base), 'nlri': ['10.5.0.0/16', '10.6.6.0/24']}, dict(u, valid=True, etype='UPDATE', nln=2, ats=[1, 2, 3])),
@@ -716,9 +739,12 @@ def bodies_for(rule):
                  dict(u, valid=True, etype='UPDATE', nln=1, wdn=1, ats=[1, 2, 3, 14, 15])),
                 ('empty', {}, dict(u, etype='UPDATE'))]
     if rule == 'send/route-refresh':
-        return [('ipv4', {'afi': 1, 'safi': 1}, dict(u, valid=True, etype='RR')), ('unsupported-family', {'afi': 2, 'safi': 1}, dict(u, etype='RR')),
+        return [('ipv4', {'afi': 1, 'safi': 1}, dict(u, valid=True, etype='RR', rr=[1, 0, 1])), ('unsupported-family', {'afi': 2, 'safi': 1}, dict(u, etype='RR')),
                 ('no-afi', {'safi': 1}, dict(u, etype='RR')),
-                ('ipv4-res255', {'afi': 1, 'safi': 1, 'res': 255}, dict(u, valid=True, etype='RR')),
+                ('ipv4-res255', {'afi': 1, 'safi': 1, 'res': 255}, dict(u, valid=True, etype='RR', rr=[1, 255, 1])),
+                ('ipv4-res1', {'afi': 1, 'safi': 1, 'res': 1}, dict(u, valid=True, etype='RR', rr=[1, 1, 1])),
+                ('ipv4-res3', {'afi': 1, 'safi': 1, 'res': 3}, dict(u, valid=True, etype='RR', rr=[1, 3, 1])),
+                ('ipv4-res128', {'afi': 1, 'safi': 1, 'res': 128}, dict(u, valid=True, etype='RR', rr=[1, 128, 1])),
                 # a reserved field that does not fit one octet cannot be encoded: the request must fail without any effect
                 ('ipv4-res256', {'afi': 1, 'safi': 1, 'res': 256}, dict(u, etype='RR')), ('ipv4-res-neg', {'afi': 1, 'safi': 1, 'res': -1}, dict(u, etype='RR')),
                 ('ipv4-res-text', {'afi': 1, 'safi': 1, 'res': 'x'}, dict(u, etype='RR')), ('afi-huge', {'afi': 65536, 'safi': 1}, dict(u, etype='RR')),
@@ -777,16 +803,20 @@ def c16_run(tid, wcfg, cfgline, state, rule, method, cred, bname, body, rq):
         pre2 = rec.pre['o']['stat']
         o2 = rec.step({'k': 'rest', 'c': 0, 'rule': rule, 'method': method, 'cred': cred, 'body': body, 'm': bname}, 0, extra={'rq': rq})
         rec.lines[-1]['statsame'] = (pre2 == o2['stat'])
-    # what the request left behind must not break the next ordinary events
+    # what the request left behind must not break the next ordinary events (with RIB maintenance on, a ROUTE-REFRESH of
+    # the peer for IPv4 unicast in both type codes is one of them)
     if rec.pre['st'] == 'ESTABLISHED' and rec.pre['trcs'] == 'open':
         rec.step({'k': 'msg', 'c': rec.pre['tr'], 'm': 'KA'}, rec.pre['tr'])
+    if wcfg.get('rib') and rec.pre['st'] == 'ESTABLISHED' and rec.pre['trcs'] == 'open':
+        rec.step({'k': 'msg', 'c': rec.pre['tr'], 'm': 'RR'}, rec.pre['tr'])
+        rec.step({'k': 'msg', 'c': rec.pre['tr'], 'm': 'RR128'}, rec.pre['tr'])
     return rec.lines
 
 
 def max_size_bodies():
     """send/update and send/bin_update requests whose UPDATE is exactly 4096 / 4095 / 4000 octets (eBGP, 4-octet AS)"""
     out = []
-    u = {'cls': 'send', 'valid': True, 'etype': 'UPDATE', 'wdn': 0, 'nln': 0, 'ats': [1, 2, 3], 'ibgp': False, 'lp': -1, 'aspl': -1}
+    u = {'cls': 'send', 'valid': True, 'etype': 'UPDATE', 'wdn': 0, 'nln': 0, 'ats': [1, 2, 3], 'ibgp': False, 'lp': -1, 'aspl': -1, 'rr': [-1, -1, -1]}
     base = {'1': 0, '2': [[2, [65001]]], '3': '10.0.0.1'}
     for total, tail in ((4096, ['10.250.0.0/16']), (4095, ['10.0.0.0/8']), (4093, []), (4097, ['10.250.1.0/24']), (5043, [])):
         n32 = (total - 43 - sum({24: 4, 16: 3, 8: 2}[int(t.split('/')[1])] for t in tail)) // 5
@@ -797,6 +827,12 @@ def max_size_bodies():
             (int(t.split('/')[1]), bytes(int(x) for x in t.split('/')[0].split('.'))[:int(t.split('/')[1]) // 8]) for t in tail)
         msg = wire.simple_update(prefixes=pf, asns=(65001,), asn4=True)
         out.append(('send/bin_update', 'binsize%d' % len(msg), {'binary_data': msg.hex()}, dict(u, nln=len(nl), valid=total <= 4096)))
+    # more than a thousand short prefixes in one request (they fit: 3 octets each)
+    many = ['%d.%d.0.0/16' % (11 + i // 256, i % 256) for i in range(1300)]
+    out.append(('send/update', 'announce1100', {'attr': dict(base), 'nlri': many[:1100]}, dict(u, nln=1100, valid=True)))
+    out.append(('send/update', 'announce1025', {'attr': dict(base), 'nlri': many[:1025]}, dict(u, nln=1025, valid=True)))
+    out.append(('send/update', 'withdraw1300', {'withdraw': many}, dict(u, wdn=1300, ats=[], valid=True)))
+    out.append(('send/update', 'both40+1025', {'attr': dict(base), 'nlri': many[:40], 'withdraw': many[100:1125]}, dict(u, nln=40, wdn=1025, valid=True)))
     return out
 
 
@@ -816,6 +852,10 @@ def c16_jobs(tier, seed):
         for rule in ('send/update', 'send/bin_update', 'json_to_bin'):
             for (bname, body, rq) in bodies_for(rule):
                 jobs.append(('c16', dict(las=65001, ras=65002, hold=90, **extra), 'ESTABLISHED', rule, 'POST', 'good', bname, body, rq))
+    # peers that advertise other route-refresh capabilities (Cisco 128, enhanced 70) or none: the reserved octet goes out as asked
+    for pc in (['mp', 'rr', 'crr', 'err', 'as4'], ['mp', 'crr', 'err', 'as4'], ['mp', 'rr', 'err', 'as4', 'gr']):
+        for (bname, body, rq) in bodies_for('send/route-refresh'):
+            jobs.append(('c16', dict(las=65001, ras=65002, hold=90, peer_caps=pc), 'ESTABLISHED', 'send/route-refresh', 'POST', 'good', bname, body, rq))
     for wcfg in (dict(las=65001, ras=65002, hold=90, afi_safi=['ipv4', 'ipv6']), dict(las=65001, ras=65001, hold=90)):
         for state in C16_STATES:
             for rule in rules:
@@ -853,6 +893,9 @@ def run_jobs(args):
             elif job[0] == 'c12md5':
                 _, wcfg, sd = job
                 lines = c12md5_run(tid, wcfg, cfgline_fn(wcfg), sd)
+            elif job[0] == 'c01q':
+                _, wcfg, state, nitems, wn = job
+                lines = c01q_run(tid, wcfg, cfgline_fn(wcfg), state, nitems, wn)
             elif job[0] == 'c02r':
                 _, wcfg, sd = job
                 lines = c02r_run(tid, wcfg, cfgline_fn(wcfg), sd)
